@@ -31,7 +31,7 @@ def shards(tier):
 
 
 def required_classes(tier):
-    return ["cand:" + c for c in CLASSES] + ["suite:basic", "suite:aug", "suite:pop", "reach:pairing-nonaccept", "reach:subgroup-reject", "reach:decode-reject"]
+    return ["cand:" + c for c in CLASSES] + ["suite:custom", "suite:basic", "suite:aug", "suite:pop", "reach:pairing-nonaccept", "reach:subgroup-reject", "reach:decode-reject"]
 
 
 def run(rec):
@@ -44,10 +44,20 @@ def run(rec):
     msgs = msg_pool(rng)
     order2 = params.BLS_H2 * R
     tors = {}
+    custom = bmon.custom_suites(cs)
+    ckeys = list(custom)
     nbases = 3 if quick else 36
-    for bi in range(nbases):
-        suite = names[(bi + rec.shard) % 3]
-        S = suites[suite]
+    for bi in range(nbases + 1):
+        if bi == nbases:
+            # one more base case on a user-derived suite (another hash function / other tags); the stock suite's signature is a candidate too
+            if not ckeys:
+                break
+            suite = ckeys[rec.shard % len(ckeys)]
+            S = custom[suite]
+            rec.case("suite:custom", None, nontrivial=False)
+        else:
+            suite = names[(bi + rec.shard) % 3]
+            S = suites[suite]
         sk = rng.choice([1, 2, R - 1, rng.randrange(1, R), rng.randrange(1, R), (1 << rng.randrange(1, 255))])
         m = rng.choice(msgs) if bi % 2 else rng.randbytes(rng.randrange(0, 80))
         pk = bmon.register_key(sk)
@@ -80,7 +90,24 @@ def run(rec):
         for other in names:
             if other != suite:
                 offer("other-suite", bmon.m_sign(other, sk, m))
+        if suite not in names:
+            offer("other-suite", bmon.m_sign(bmon.kind_of(suite), sk, m))          # the stock suite of the same kind (SHA-256, standard tags)
         # 5. possession proof vs message signature
+        if suite not in names:
+            # the remaining candidate classes use the stock tags; group-level and bit-level variants below apply to any suite
+            dstx = bmon.sp_of(suite).dst
+            Hx = bmon.sp_of(suite).H
+            for d in (1, -1):
+                skn = (sk + d) % R
+                if skn:
+                    offer("sk+-1", Z.enc_g2(E2.mul(Z.dec_g2(MB.core_sign(1, MB.augmented(bmon.kind_of(suite), pk, m), dstx, Hx)), skn)))
+            offer("negated", Z.enc_g2(E2.neg(Spt)))
+            offer("doubled", Z.enc_g2(E2.add(Spt, Spt)))
+            offer("identity", Z.enc_g2(None))
+            zc = int.from_bytes(canon, "big")
+            for b_ in [767, 766, 765, 383, 382, 381] + rng.sample(range(768), 12):
+                offer("bitflip", (zc ^ (1 << b_)).to_bytes(96, "big"))
+            continue
         prf = bmon.m_pop(sk)
         rec.case("cand:pop-as-sig", ("v", suite, pk, pk, prf), sample={"suite": suite, "candidate": "PopProve(sk) offered to Verify(pk, pk, .)"})
         call(S.Verify, pk, pk, prf)
